@@ -351,6 +351,7 @@ impl Check for C03 {
             allow_breaks: rng.chance(1, 4),
             max_blocks: 1 + rng.usize_below(7),
             high_origin: rng.chance(1, 12),
+            tail_beyond_user: false,
         };
         let program = gen::generate(&mut rng, &opts);
         J::obj()
